@@ -17,7 +17,7 @@ EXPLANATION = (
     'pass-2 test reads a variable that is stored only in pass 1. PASS-SIZE: a pass-2 test of a symbol-derived value against a '
     'constant whose arms emit different byte counts when the memo says "unknown" is a violation; tests whose arms are not '
     'finite byte sets (table search loops) are listed as not decided, with the triage classification (forward-reference '
-    'experiments, triage/passsize/) where there is one. Not decided: size decisions taken through strings or table rows '
+    'experiments, triage/passsize/) where there is one. FIXED-PAD: in the variable-length emitters every return is dominated by a test of the fixed_size parameter (no value bypasses the padding that keeps forward references the same length in both passes). Not decided: size decisions taken through strings or table rows '
     '(68000 add->addq alias), parser-level differences between the passes (ignore_operand swallowing a closing token).')
 
 
@@ -104,5 +104,5 @@ def run(tier, t0):
     cg = common.callgraph()
     results = [passes.interpass(prog), passes.addsym(prog), passes.rpass(prog, cg), passes.default_cpu(prog, cg), symlock(prog),
                passsize.memo_gov(prog), passsize.memo_pair(prog), passsize.memo_survives(prog, cg), passsize.memo_addr(prog),
-               passsize.pass_flag(prog), passsize.pass_size(prog), passsize.memo_thresh(prog), symset(prog), passsize.varlen_emit(prog)]
+               passsize.pass_flag(prog), passsize.pass_size(prog), passsize.memo_thresh(prog), symset(prog), passsize.varlen_emit(prog), passsize.fixed_pad(prog)]
     return report.finish('C02', tier, results, EXPLANATION, [], common.TRUSTED, t0)
